@@ -178,7 +178,7 @@ End Bkg.
 (* ------------------------------------------------------------------------- *)
 Section Prof.
 Variable T : Type.
-(* float multiply, divide, nanmax / nansum (true = 'sum'), (== 0), 1.0 *)
+(* float multiply, divide, nanmax / nansum (true = 'sum'), refusal test (== 0 or non-finite), 1.0 *)
 Variables (mul div : T -> T -> T) (norm_of : bool -> list T -> T) (is_zero : T -> bool) (one : T).
 
 Record pcfg := { p_PR : list T;             (* profile as first computed *)
@@ -688,7 +688,9 @@ Definition f_nanmax (l : list float) : float :=
 Definition f_nansum (l : list float) : float :=
   fold_left (fun acc x => if PrimFloat.is_nan x then acc else PrimFloat.add acc x) l PrimFloat.zero.
 Definition f_norm (sum : bool) (l : list float) : float := if sum then f_nansum l else f_nanmax l.
-Definition f_is_zero (x : float) : bool := PrimFloat.eqb x PrimFloat.zero.
+(* normalize refuses a zero or non-finite normalisation (profiles/core.py:236) *)
+Definition f_is_zero (x : float) : bool :=
+  PrimFloat.eqb x PrimFloat.zero || PrimFloat.is_nan x || PrimFloat.is_infinity x.
 Definition fp_step := pstep float PrimFloat.mul PrimFloat.div f_norm f_is_zero PrimFloat.one.
 
 Definition pop_of (z : Z) : pop :=
